@@ -37,6 +37,7 @@ type Config struct {
 	Silence        []string
 	NoInit         []string
 	RunInit        []string
+	Stub           []string // functions (full SSA names) replaced by "return zero values"
 	Reach          []string // labels that must be reached
 	SolverMs       int
 	Workers        int
@@ -48,6 +49,15 @@ type Config struct {
 func (c *Config) noInit(path string) bool {
 	for _, p := range c.NoInit {
 		if path == p || strings.HasPrefix(path, p+"/") {
+			return true
+		}
+	}
+	return false
+}
+
+func (c *Config) stubbed(name string) bool {
+	for _, p := range c.Stub {
+		if name == p {
 			return true
 		}
 	}
@@ -118,6 +128,8 @@ func (c *Config) apply(opts []string) error {
 			c.NoInit = append(c.NoInit, strings.Split(v, ",")...)
 		case "runinit":
 			c.RunInit = append(c.RunInit, strings.Split(v, ",")...)
+		case "stub":
+			c.Stub = append(c.Stub, strings.Split(v, ",")...)
 		case "reach":
 			c.Reach = append(c.Reach, strings.Split(v, ",")...)
 		case "solverms":
@@ -139,11 +151,13 @@ type Engine struct {
 	pkgs  []*packages.Package
 	entry *ssa.Function
 
-	mu          sync.Mutex
-	opaqueTypes map[string]types.Type
-	methodCache sync.Map
-	silenceList []string
-	errIface    *types.Interface
+	mu             sync.Mutex
+	opaqueTypes    map[string]types.Type
+	methodCache    sync.Map
+	silenceList    []string
+	known          []knownFinding
+	concreteInputs map[string]any
+	errIface       *types.Interface
 }
 
 func (e *Engine) silenced(path string) bool {
